@@ -39,6 +39,7 @@ func RunCheck(prop, repo, verif, tier, only string, seed int, start time.Time) i
 		return 2
 	}
 	c := NewCtx(p, prop, tier)
+	c.VerifDir = verif
 	pc.Run(c)
 	if only != "" {
 		var keep []Obl
@@ -53,11 +54,27 @@ func RunCheck(prop, repo, verif, tier, only string, seed int, start time.Time) i
 	if tier == "thorough" && only == "" {
 		self, _ := os.Executable()
 		wr := RunWitnessesOf(self, repo, verif, prop, seed)
-		flagged, na := 0, 0
+		flagged, na, silent, falseAlarms := 0, 0, 0, 0
+		baseViol := false
+		for _, o := range c.Obls {
+			if o.Verdict == "violated" {
+				baseViol = true
+			}
+		}
 		for _, r := range wr {
 			switch r.Status {
 			case "flagged":
 				flagged++
+			case "silent":
+				silent++
+			case "false-alarm":
+				// on a tree that itself violates the property (also through a listed finding's sibling) the
+				// refactored overlay reports that violation too; only a clean tree makes this a checker defect
+				falseAlarms++
+				if !baseViol {
+					broken++
+					fmt.Printf("WITNESS-FALSE-ALARM property=%s witness=%d (%s): reported on a behaviour-preserving refactoring: [%s]\n", prop, r.Index, r.Note, r.Reports)
+				}
 			case "not-applicable", "does-not-compile":
 				na++
 			default:
@@ -69,11 +86,13 @@ func RunCheck(prop, repo, verif, tier, only string, seed int, start time.Time) i
 			"mutation_witnesses_total":          len(wr),
 			"mutation_witnesses_flagged":        flagged,
 			"mutation_witnesses_not_applicable": na,
+			"refactoring_witnesses_silent":      silent,
+			"refactoring_witnesses_alarmed":     falseAlarms,
 			"mutation_witnesses":                wr,
-			"tier_note":                         "thorough = all rules of the quick tier + checker self-validation: every mutation witness of this property (an overlay edit that still type-checks) must be reported by its rule",
+			"tier_note":                         "thorough = all rules of the quick tier + checker self-validation: every mutation witness of this property (an overlay edit that still type-checks) must be reported by its rule, and every behaviour-preserving refactoring witness must be analysed without a new report",
 		}
 		c.Evaluations += len(wr)
-		fmt.Printf("%s: %d mutation witnesses, %d flagged, %d not applicable on this tree\n", prop, len(wr), flagged, na)
+		fmt.Printf("%s: %d witnesses: %d breaking changes flagged, %d refactorings silent, %d not applicable on this tree\n", prop, len(wr), flagged, silent, na)
 	}
 	res := c.Finish(verif, seed, start, pc.Explanation, pc.Assumptions)
 	if res.Exit == 0 && broken > 0 {
